@@ -174,6 +174,8 @@ class MetricReceiver(CarbonServerProtocol, TimeoutMixin):
       return
     if datapoint[1] != datapoint[1]:  # filter out NaN values
       return
+    if datapoint[0] != datapoint[0] or abs(datapoint[0]) == float('inf'):
+      return  # a NaN or infinite timestamp cannot be stored (and int() below would raise)
     # use current time if none given: https://github.com/graphite-project/carbon/issues/54
     if int(datapoint[0]) == -1:
       datapoint = (time.time(), datapoint[1])
@@ -189,10 +191,9 @@ class MetricLineReceiver(MetricReceiver, LineOnlyReceiver):
   delimiter = b'\n'
 
   def lineReceived(self, line):
-    if sys.version_info >= (3, 0):
-      line = line.decode('utf-8')
-
     try:
+      if sys.version_info >= (3, 0):
+        line = line.decode('utf-8')  # UnicodeDecodeError is a ValueError
       metric, value, timestamp = line.strip().split()
       datapoint = (float(timestamp), float(value))
     except ValueError:
@@ -218,10 +219,15 @@ class MetricDatagramReceiver(MetricReceiver, DatagramProtocol):
   def datagramReceived(self, data, addr):
     (host, _) = addr
     if sys.version_info >= (3, 0):
-      data = data.decode('utf-8')
+      try:
+        data = data.decode('utf-8')
+      except UnicodeDecodeError:
+        pass  # decode line by line below, so that only the broken lines are skipped
 
     for line in data.splitlines():
       try:
+        if isinstance(line, bytes) and sys.version_info >= (3, 0):
+          line = line.decode('utf-8')
         metric, value, timestamp = line.strip().split()
         datapoint = (float(timestamp), float(value))
 
@@ -248,10 +254,16 @@ class MetricPickleReceiver(MetricReceiver, Int32StringReceiver):
     try:
       datapoints = self.unpickler.loads(data)
     # Pickle can throw a wide range of exceptions
-    except (pickle.UnpicklingError, ValueError, IndexError, ImportError,
-            KeyError, EOFError) as exc:
+    except Exception as exc:
       log.listener('invalid pickle received from %s, error: "%s", ignoring' % (
                    self.peerName, exc))
+      return
+
+    try:
+      datapoints = iter(datapoints)
+    except TypeError:
+      log.listener('invalid pickle received from %s, not a list of datapoints, ignoring' % (
+                   self.peerName))
       return
 
     for raw in datapoints:
@@ -263,12 +275,15 @@ class MetricPickleReceiver(MetricReceiver, Int32StringReceiver):
 
       try:
         datapoint = (float(value), float(timestamp))  # force proper types
-      except (ValueError, TypeError):
+      except (ValueError, TypeError, OverflowError):
         continue
 
       # convert python2 unicode objects to str/bytes
       if not isinstance(metric, str):
-        metric = metric.encode('utf-8')
+        try:
+          metric = metric.encode('utf-8')
+        except AttributeError:
+          continue  # not a name at all
 
       self.metricReceived(metric, datapoint)
 
